@@ -52,13 +52,14 @@ func init() {
 		Assumptions: []string{"payload lengths are concrete per path, payload bytes symbolic; integer digits symbolic within '0'..'9'", "nested values come from a reduced menu (blob, 1-digit integer, two null forms, +OK, double, nested aggregate); non-first children from a two-kind menu"},
 		Outside:     []string{"trees deeper than 2 or wider than 2 (the decoder is structurally recursive; no inductive argument is claimed)", "integers of more than 18 digits (may exceed int64: not well-formed)", "more than one split point per frame (quick: 4 split positions; thorough: every position)"},
 		Bounds: map[string]any{
-			"quick":    "depth ≤ 1, width ≤ 2, payload lengths {0,2}, digits {1,3}; chunkings: all-at-once, byte-at-a-time, split at {1,2,len/2,len-1}",
+			"quick":    "depth ≤ 1, width ≤ 2, payload lengths {0,2}, digits {1,3}; chunkings: all-at-once, byte-at-a-time, split at {1,2,len/2,len-1}; blob strings of 2^20-1, 2^20, 2^20+1, 2^20+1000, 2^21+7 bytes (5 symbolic marker bytes) split before/at/after the 1 MiB pre-allocation cap, near the end, and in 64 KiB segments",
 			"thorough": "depth ≤ 2, width ≤ 2, payload lengths {0,1,2,5}, digits {1,2,3,18}; every single split position",
 		},
 		specs: func(tier string) []specRef {
 			return []specRef{
 				hsx(rootPkg, "VerifC12_decode", P{"depth": q(tier, int64(1), 2), "long": q(tier, int64(0), 1), "all_splits": q(tier, int64(0), 1)}, 2000000, q(tier, 600, 3000), "decoded", "attrs", "nested"),
 				hsx(rootPkg, "VerifC12_stream", P{"long": q(tier, int64(0), 1), "all_splits": q(tier, int64(0), 1)}, 2000000, q(tier, 600, 3000), "streamstr", "streamint", "pushskip"),
+				{dir: "", spec: &harnessSpec{Pkg: rootPkg, Name: "VerifC12_bigblob", MaxSteps: 200000000, MaxPaths: 1000, TimeoutS: 1800, Witnesses: []string{"big"}}},
 			}
 		},
 	}
